@@ -109,8 +109,29 @@ def strategy():
         return {"steps": steps}
 
     @st.composite
+    def syslogseq(draw):
+        """2..4 configurations that all log through the C library's syslog machinery (output syslog, where compiled in, else the
+        default output), each naming its own subset of ident / facility / level -- libc keeps tag, facility and options between calls."""
+        steps = []
+        for _ in range(draw(st.integers(2, 4))):
+            opts = [(b"output", draw(st.sampled_from([b"syslog", b"syslog", b"syslog", b"devlog"]))), (b"message_format", b"S %{filename} %{cmdline}")]
+            if draw(st.sampled_from([True, True, False])):
+                opts.append((b"syslog_ident", draw(st.sampled_from([b"", b"", b"%{env:NOT_SET_ANYWHERE}", b"first-ident", b"id-%{uid}", b"x" * 40]))))
+            if draw(st.sampled_from([True, True, False])):
+                opts.append((b"syslog_facility", draw(st.sampled_from(gen.FACILITIES)).encode()))
+            if draw(st.sampled_from([True, False])):
+                opts.append((b"syslog_level", draw(st.sampled_from(gen.LEVELS)).encode()))
+            opts = draw(st.permutations(opts))
+            steps.append({"op": "cfg", "cfg": {"kind": "syslogseq", "ini": gen.render_ini(opts), "opts": list(opts)}})
+            steps += [draw(callstep()) for _ in range(draw(st.integers(1, 2)))]
+        return {"steps": steps}
+
+    @st.composite
     def case(draw):
-        if draw(st.booleans()):
+        k = draw(st.integers(0, 5))
+        if k == 0:
+            return draw(syslogseq())
+        if k <= 3:
             return draw(targeted())
         n = draw(st.integers(2, 30))
         steps = [draw(cfgstep())]
@@ -136,7 +157,8 @@ def call_ops(out, s, snap=False):
 
 def norm(name, content):
     if name == "devlog" and isinstance(content, list):
-        return [re.sub(rb"\[\d+\]: ", b"[PID]: ", d, count=1) for d in content]
+        # (records sent by the C library's syslog() carry its own time stamp after the priority)
+        return [re.sub(rb"^(<\d+>)[A-Z][a-z]{2} [ \d]\d \d\d:\d\d:\d\d ", rb"\1TIME ", re.sub(rb"\[\d+\]: ", b"[PID]: ", d, count=1)) for d in content]
     return content
 
 
@@ -256,7 +278,7 @@ def classify(c):
                     nontriv.add((k.decode(), "invalidated"))
         for k in now:
             seen[k] = True
-        cls.add("cfg:" + ("broken" if state.endswith("syntaxerror") else state if (state in ("absent", "dir", "empty", "garbage") or state.startswith("targeted")) else "opts"))
+        cls.add("cfg:" + ("broken" if state.endswith("syntaxerror") else state if (state in ("absent", "dir", "empty", "garbage", "syslogseq") or state.startswith("targeted")) else "opts"))
     ncalls = sum(1 for s in c["steps"] if s["op"] == "call")
     cls.add("calls:%d" % min(ncalls, 10))
     key = tuple(sorted(nontriv))[:6] if nontriv else None
@@ -293,6 +315,11 @@ FIXED = [
     # file output twice in one process, duplicate output lines, unknown output name
     {"steps": [_cf([(b"output", b"file:@OUT@/log")]), _SHORT, _SHORT, _cf([(b"output", b"file:@OUT@/log"), (b"output", b"devnull")]), _SHORT,
                _cf([(b"output", b"flie:@OUT@/log")]), _SHORT, _SHORT, _SHORT]},
+    # the C library's own syslog state (tag, facility, options) between two calls that both use output = syslog
+    {"steps": [_cf([(b"output", b"syslog"), (b"syslog_facility", b"LOCAL5"), (b"syslog_ident", b"first-ident")]), _SHORT,
+               _cf([(b"output", b"syslog"), (b"syslog_ident", b"")]), _SHORT, _cf([(b"output", b"syslog")]), _SHORT]},
+    {"steps": [_cf([(b"output", b"syslog"), (b"syslog_facility", b"LOCAL3"), (b"syslog_level", b"ERR")]), _SHORT,
+               _cf([(b"output", b"syslog"), (b"syslog_facility", b"KERN")]), _SHORT, _cf([(b"output", b"devlog"), (b"syslog_facility", b"KERN")]), _SHORT]},
 ]
 
 
